@@ -12,7 +12,7 @@ rc=0
 sav=$(mktemp -d /var/tmp/verif-mut.XXXXXX)
 for p in "$@"; do
   out=$(VERIF_REPO="$REPO" VERIF_EVIDENCE_DIR="$sav/evidence" VERIF_REPLAY_DIR="$sav/replay" /verif/check "$p" 2>&1); r=$?
-  echo "$out" | grep -E "^(VIOLATION|TOOL-ERROR|KNOWN-FINDING|property=)" | cut -c1-260
+  echo "$out" | grep -E "^(VIOLATION|TOOL-ERROR|KNOWN-FINDING|property=)" | cut -c1-420
   echo "== $p exit=$r"
   [ $r -ne 0 ] && rc=$r
 done
